@@ -244,6 +244,16 @@ def _renamed_method(prog, type_suffix, name):
         cs = [inline._strip_paths(inline._canon_generic(b.local_ty(i))) for i in range(1, b.arg_count + 1)]
         if cs == want and inline._strip_paths(inline._canon_generic(b.local_ty(0))) == want_ret:
             cands.append(b)
+    if not cands:
+        # ... or the receiver of a `Copy` type taken by value instead of by reference (the view has already restored the pinned
+        # parameter order of a renamed method, `inline.RENAMED`)
+        unref = lambda t_: re.sub(r"^&(?:'\w+ )?(?:mut )?", "", t_)
+        for b in methods_of(prog, type_suffix):
+            if mir.strip_generics(b.path) in vocab or b.raw.get("reachable") is True or inline.RENAMED.get(mir.strip_generics(b.path)) != pinned[0]:
+                continue
+            cs = [inline._strip_paths(inline._canon_generic(b.local_ty(i))) for i in range(1, b.arg_count + 1)]
+            if [unref(x) for x in cs] == [unref(x) for x in want] and inline._strip_paths(inline._canon_generic(b.local_ty(0))) == want_ret:
+                cands.append(b)
     return cands[0] if len(cands) == 1 else None
 
 
